@@ -41,8 +41,9 @@ Step ==
     /\ LET s1 == Observed
            newp == UNION {{<<p, t[1], t[2], t[3], Origin>> : t \in Changed(st, s1, p)} : p \in peers}
            all == {x \in pending \cup newp : <<x[2], x[3], x[4]>> \notin Announced(x[1])}
-           \* a pending change whose dirty mark is gone can no longer be announced
-           lost == {x \in all : <<x[2], x[3], x[4]>> \notin DirtyTriples(s1, x[1])}
+           \* a pending change whose dirty mark is gone can no longer be announced; the announcement is asynchronous, so a change
+           \* of this very step is given until the next observation (every scenario ends with idle steps)
+           lost == {x \in all \cap pending : <<x[2], x[3], x[4]>> \notin DirtyTriples(s1, x[1])}
            \* room definitions: creation announces on the creator, a first import announces on the importer
            roommiss == IF Ev.ev = "room" /\ Ev.res = "ok" /\ Ev.room \notin RoomEvents(Ev.p) THEN {<<"noroomevent", Ev.p, Ev.room, "x", "x", "room">>}
                        ELSE IF Ev.ev = "pull" /\ Ev.res = "ok" /\ <<Ev.p, Ev.room>> \notin knows /\ Ev.room \notin RoomEvents(Ev.p)
